@@ -277,7 +277,7 @@ def r8_buffers(ctx):
             bad = [e for e in ev if e[0] == "free" and e[1] not in work]
             ctx.check(not bad, f"{tag}: {label}: free() is applied only to calloc'ed buffers", where, None if not bad else repr(bad), nontrivial=False)
             n = sum(1 for e in ev if e[0] == "decref" and e[1] == "peaks")
-            ctx.check(n == 1, f"{tag}: {label}: the input array is released exactly once ({n})", where)
+            ctx.check(n <= 1, f"{tag}: {label}: the input array is released at most once ({n}; the caller may hold the other reference)", where)
             ctx.check(not any(e[0] == "decref-null" for e in ev), f"{tag}: {label}: Py_DECREF is never applied to NULL", where, nontrivial=False)
             rets = _returned(t["ret"]) or []
             for r in rets:
@@ -352,6 +352,17 @@ def _entry_rule(ctx, tag, ex, where, arr_ok, is_flag, kernels):
             nrefuse += 1
             ctx.check(refused, f"{tag} [{label}]: a call that does not reach a kernel is refused with an exception", where, None if refused else Y.show(ret) if ret else t["dst"],
                       key=f"C05-R7|{tag}|refusal")
+            # ... and only then: no 1-d sequence of length >= 2 is refused (every array named on the path is the caller's sequence)
+            from .e8_karr import V
+            names = {v for a_, _ in cons for v in a_.c} | {v for alts in disj for alt in alts for a_, _ in alt for v in a_.c}
+            extra = []
+            for v in sorted(names):
+                if v.startswith("<ndim("):
+                    extra.append((V(v) - 1, "eq"))
+                elif v.startswith("<size("):
+                    extra.append((V(v) - 2, "ge"))
+            ok = not Y.feasible_with(cons + extra, disj)
+            ctx.check(ok, f"{tag} [{label}]: no 1-d sequence of length >= 2 is refused", where, key=f"C05-R7|{tag}|accepts length 2")
     ctx.check(nret >= 2 and nrefuse >= 1, f"{tag}: {nret} dispatching and {nrefuse} refusing paths", where, nontrivial=False)
 
 
